@@ -2,6 +2,10 @@ import EupsModel.Lemmas.RecordReloc
 import EupsModel.Lemmas.RecordText
 import EupsModel.Lemmas.RecordEndToEnd
 import EupsModel.Lemmas.RecordDir
+import EupsModel.Lemmas.RecordQual
+import EupsModel.Lemmas.RecordMacro
+import EupsModel.Lemmas.RecordMacroText
+import EupsModel.Lemmas.RecordHistory
 /-! C16 — database records round-trip and stacks are relocatable.  Property theorems only.
 Model and the specification-side definitions used in the statements (`DirPl`, `TabPl`, `DirPl.at`, `TabPl.at`,
 `declaredProd`, `canonInfo`, `PlaceOK`, `DeclEx`, `ReadEx`, `readBack`): `Model/Record.lean`; helper lemmas:
@@ -180,6 +184,199 @@ theorem C16_qualifier_clash_witness :
         .ok { name := some [97], version := some [49], flavors := [([76, 58, 98], clashInfo 50)] } := by
   refine ⟨_, rfl, ?_⟩
   rfl
+
+/-! ### Inside the alphabet after all: qualified flavors in the right order
+
+`QualKey fq`: `fq` is a clean unqualified name, or `base:qual` with `base` such a name and `qual` clean and not
+starting with a second `:`.  `QualOrder keys`: the keys are pairwise distinct and **no unqualified flavor precedes a
+qualified flavor of the same base** (`a ≠ baseOf b` for every `a` before a qualified `b`).  `GoodVRecQ` / `GoodCRecQ` are
+`GoodVRec` / `GoodCRec` with these two in place of "no qualifier" and "distinct".  `C16_qualifier_clash_witness` above
+shows that the order hypothesis cannot be dropped, `C16_double_colon_witness` below that the form of the key cannot. -/
+
+/-- **Version files round-trip, qualified flavors admitted** (string level). -/
+theorem C16_text_roundtrip_version_qual (r : VRec) (h : GoodVRecQ r) (nm vs : Option Str)
+    (hnm : nm = none ∨ nm = r.name) (hvs : vs = none ∨ vs = r.version) :
+    ∃ text, printVersion r = .ok (some text) ∧ parseVersion nm vs text = .ok r :=
+  text_roundtrip_version_qual r h nm vs hnm hvs
+
+/-- **Chain files round-trip, qualified flavors admitted** (string level). -/
+theorem C16_text_roundtrip_chain_qual (r : CRec) (h : GoodCRecQ r) (nm tg : Option Str)
+    (hnm : nm = none ∨ nm = r.name) (htg : tg = none ∨ tg = r.tag) :
+    ∃ text, printChain r = .ok (some text) ∧ parseChain nm tg text = .ok r :=
+  text_roundtrip_chain_qual r h nm tg hnm htg
+
+/-- The earlier theorems are the special case without qualifiers. -/
+example (r : VRec) (h : GoodVRec r) : GoodVRecQ r := goodVRecQ_of_good r h
+example (r : CRec) (h : GoodCRec r) : GoodCRecQ r := goodCRecQ_of_good r h
+
+/-- Non-vacuity: the clash record with its two blocks swapped (`L:b` first, then `L`) satisfies the order hypothesis … -/
+def swappedRec : VRec :=
+  { name := some [97], version := some [49], flavors := [([76, 58, 98], clashInfo 50), ([76], clashInfo 49)] }
+example : QualOrder (swappedRec.flavors.map (·.1)) := by decide
+example : ¬ QualOrder (clashRec.flavors.map (·.1)) := by decide
+/-- … and reads back. -/
+example : ∃ text, printVersion swappedRec = .ok (some text) ∧ parseVersion none none text = .ok swappedRec :=
+  ⟨_, rfl, rfl⟩
+
+def dcolonRec : VRec :=
+  { name := some [97], version := some [49], flavors := [([76, 58, 58, 98], clashInfo 49)] }
+
+/-- The form of a qualified key matters too: the writer's pattern `^([^:]+)(:?:(.*)$)?` swallows a second colon, so
+the flavor `L::b` is written as `FLAVOR = L`, `QUALIFIERS = "b"` and reads back as `L:b`. -/
+theorem C16_double_colon_witness :
+    ∃ text, printVersion dcolonRec = .ok (some text) ∧
+      parseVersion none none text =
+        .ok { name := some [97], version := some [49], flavors := [([76, 58, 98], clashInfo 49)] } :=
+  ⟨_, rfl, rfl⟩
+
+/-- The same clash in a chain file: `L` then `L:b` reads back as the single block `L:b` (the `FLAVOR = L` line of the
+second block resets the first). -/
+def clashChain : CRec :=
+  { name := some [97], tag := some [99], flavors :=
+      [([76], { version := Fld.val [49], declarer := Fld.val [114] }),
+       ([76, 58, 98], { version := Fld.val [50], declarer := Fld.val [114] })] }
+theorem C16_qualifier_clash_chain_witness :
+    ∃ text, printChain clashChain = .ok (some text) ∧
+      parseChain none none text =
+        .ok { name := some [97], tag := some [99],
+              flavors := [([76, 58, 98], { version := Fld.val [50], declarer := Fld.val [114] })] } :=
+  ⟨_, rfl, rfl⟩
+
+/-! ### Histories of operations on the records of one product
+
+`DbOp` = `Database.undeclare` / `unassignTag` / `assignTag` / `declare` (as far as the record goes: the block of one flavor
+is set); `PDir.run d ops` applies a history in order — what one long-lived `Database` object does in one process. -/
+
+/-- **A history leaves the flavors it does not operate on alone**: whatever the operations and their order, every
+block of a flavor `g` that none of them is about — in every chain and every version record — is after the history what
+it was before. -/
+theorem C16_history_other_flavors (d : PDir) (ops : List DbOp) (g : Str) (h : ∀ op ∈ ops, op.flavor ≠ g) :
+    (∀ t, (d.run ops).blockC t g = d.blockC t g) ∧ (∀ v, (d.run ops).blockV v g = d.blockV v g) :=
+  run_blocks ops g h d
+
+/-- **An undeclared flavor stays gone**: a version is declared for several flavors, one flavor is undeclared, then any
+history follows that does not declare that flavor again — further declarations of the same version for other flavors,
+tag assignments, other undeclarations: the record of that version has no block for the undeclared flavor. -/
+theorem C16_undeclared_stays_gone (d : PDir) (version flavor : Str) (ops : List DbOp)
+    (h : ∀ op ∈ ops, op.flavor ≠ flavor) :
+    ((d.undeclare version flavor).run ops).blockV version flavor = none :=
+  undeclared_stays_gone d version flavor ops h
+
+/-- Non-vacuity: version `1` for flavors `L` and `G`; `G` is undeclared, then `1` is declared for a third flavor `M` and
+redeclared for `L`: `G` is gone, `M` is there. -/
+example :
+    let vi : Info := { declarer := Fld.val [114], productDir := Fld.val [100] }
+    let d : PDir := { versions := [([49], { name := some [97], version := some [49], flavors := [([76], vi), ([71], vi)] })],
+                      chains := [] }
+    let d' := (d.undeclare [49] [71]).run [.declare [97] [49] [77] vi, .declare [97] [49] [76] vi]
+    d'.blockV [49] [71] = none ∧ d'.blockV [49] [77] = some vi ∧ d'.blockV [49] [76] = some vi := by decide
+
+/-! ## Hand-written records that use macros
+
+A person (or an older eups / UPS) may write `PROD_DIR`, `UPS_DIR` and `TABLE_FILE` with the macros `$PROD_ROOT` (the
+stack), `$UPS_DB` (its database directory), `$PROD_DIR`, `$UPS_DIR` (the product's resolved directories) and `$FLAVOR`.
+`MDir`, `MUps`, `MTab` (`Lemmas/RecordMacro.lean`) are the forms an entry can take — relative, one of the macros followed
+by segments, absolute, `none`, missing —, `toRec` is the text in the record, and `denote R f …` is **what the entry
+means** for a reader whose stack is at `R` and whose flavor is `f`: everything relative or macro-headed lies below `R`
+(resp. below the product / ups directory), `$FLAVOR` segments read `f`, absolute entries stay where they are, and a
+relative table-file name is looked for in the ups directory (default `<dir>/ups`), then in the stack.  `MacroWF` lists the
+meaningful combinations: segments are `$`-free or `$FLAVOR` (absolute paths and relative table names `$`-free); a relative
+`UPS_DIR` needs a product directory; `$PROD_DIR` needs a `PROD_DIR` recorded relative to the stack (relative, `$PROD_ROOT/…`
+or `$UPS_DB/…`), `$UPS_DIR` a `UPS_DIR` recorded relatively. -/
+
+/-- **Macro records are relocatable**: for every well-formed combination of hand-written entries, a reader whose stack
+is at `R` — any `R` — reports the directory and the table file the macros denote relative to `R`. -/
+theorem C16_macro_records (ex : Path → Bool) (R : List Str) (name version f : Str) (md : MDir) (mu : MUps) (mt : MTab)
+    (hR : SegsOK R) (hf : SegOK f) (hwf : MacroWF md mu mt) :
+    (resolveInfo ex name version f (absP (R ++ [sUpsDb]))
+        { productDir := some md.toRec, tableFile := some mt.toRec, upsDir := some mu.toRec }).map
+        (fun p => (p.dir, p.table))
+      = .ok (md.denote R f, mt.denote ex R f (md.denote R f) (mu.denote R f (md.denote R f))) :=
+  resolve_macro_spec ex R name version f md mu mt hR hf hwf
+
+/-- Non-vacuity: `PROD_DIR = $PROD_ROOT/pkgs/$FLAVOR/hp`, `UPS_DIR = $PROD_DIR/ups`, `TABLE_FILE = $UPS_DIR/hp.table`
+is well-formed, and a reader of flavor `L` at `/m/n` finds `/m/n/pkgs/L/hp` and `/m/n/pkgs/L/hp/ups/hp.table`. -/
+example : MacroWF (.prodRoot [[112], mFLAVOR, [104]]) (.prodDir [sUps]) (.upsDir [[104, 46, 116]]) :=
+  ⟨by simp only [MDir.ok]; decide, by simp only [MUps.ok]; decide, by simp only [MTab.ok]; decide, by simp,
+   by simp [MDir.isRel], by simp [MUps.isRel], by simp⟩
+example : (resolveInfo (fun _ => false) [104] [49] [76] (absP ([[109], [110]] ++ [sUpsDb]))
+      { productDir := some (MDir.prodRoot [[112], mFLAVOR, [104]]).toRec, tableFile := some (MTab.upsDir [[104, 46, 116]]).toRec,
+        upsDir := some (MUps.prodDir [sUps]).toRec }).map (fun p => (p.dir, p.table))
+    = .ok (.path ⟨true, [[109], [110], [112], [76], [104]]⟩,
+           .path ⟨true, [[109], [110], [112], [76], [104], sUps, [104, 46, 116]]⟩) := by rfl
+
+/-- `MacroWF` is needed: with an *absolute* `PROD_DIR` the reader never defines `$PROD_DIR`, and
+`TABLE_FILE = $PROD_DIR/ups/hp.table` is reported unresolved. -/
+theorem C16_macro_proddir_abs_witness :
+    (resolveInfo (fun _ => true) [104] [49] [76] (absP ([[109]] ++ [sUpsDb]))
+      { productDir := some (MDir.abs [[111], [104]]).toRec, tableFile := some (MTab.prodDir [sUps, [104, 46, 116]]).toRec,
+        upsDir := some (MUps.none).toRec }).map (fun p => (p.dir, p.table))
+    = .ok (.path ⟨true, [[111], [104]]⟩, .path ⟨false, [mPROD_DIR, sUps, [104, 46, 116]]⟩) := by rfl
+
+/-- **Macro records through the text of the version file**: the record a person writes (`macroRec`: one block with
+the three entries as written, `MacroTextOK`: everything in it is clean text and a `UPS_DIR` line is present) is what
+`VersionFile.write` prints and `VersionFile._read` reads back, and `makeProduct` for a reader whose stack is at `R`
+reports what the macros denote. -/
+theorem C16_macro_records_via_text (ex : Path → Bool) (R : List Str) (name version f who now : Str) (md : MDir)
+    (mu : MUps) (mt : MTab) (hR : SegsOK R) (hf : SegOK f) (hwf : MacroWF md mu mt)
+    (ht : MacroTextOK name version f who now md mu mt) :
+    ∃ text,
+      printVersion (macroRec name version f who now md mu mt) = .ok (some text) ∧
+      parseVersion (some name) (some version) text = .ok (macroRec name version f who now md mu mt) ∧
+      (makeProduct ex (macroRec name version f who now md mu mt) f (absP (R ++ [sUpsDb]))).map
+          (fun p => (p.dir, p.table))
+        = .ok (md.denote R f, mt.denote ex R f (md.denote R f) (mu.denote R f (md.denote R f))) :=
+  macro_via_text ex R name version f who now md mu mt hR hf hwf ht
+
+/-- Non-vacuity of `MacroTextOK`: the instance above, declared by `r` at `T1`. -/
+example : MacroTextOK [104] [49] [76] [114] [84, 49] (.prodRoot [[112], mFLAVOR, [104]]) (.prodDir [sUps])
+    (.upsDir [[104, 46, 116]]) := by
+  have c : ∀ s : Str, s ≠ [] → 35 ∉ s → 10 ∉ s → 13 ∉ s → 34 ∉ s → (∀ c, s.head? = some c → Str.isSpace c = false) →
+      (∀ c, s.getLast? = some c → Str.isSpace c = false) → Clean s := fun s a b c d e f g => ⟨a, b, c, d, e, f, g⟩
+  have cc : ∀ s : Str, s ≠ [] → 35 ∉ s → 10 ∉ s → 13 ∉ s → 34 ∉ s → (∀ c, s.head? = some c → Str.isSpace c = false) →
+      (∀ c, s.getLast? = some c → Str.isSpace c = false) → 47 ∉ s → SegC s := fun s a b c' d e f g h => ⟨c s a b c' d e f g, h⟩
+  refine ⟨c _ (by decide) (by decide) (by decide) (by decide) (by decide) (by decide) (by decide),
+    c _ (by decide) (by decide) (by decide) (by decide) (by decide) (by decide) (by decide), by decide,
+    ⟨c _ (by decide) (by decide) (by decide) (by decide) (by decide) (by decide) (by decide), by decide⟩,
+    c _ (by decide) (by decide) (by decide) (by decide) (by decide) (by decide) (by decide),
+    c _ (by decide) (by decide) (by decide) (by decide) (by decide) (by decide) (by decide), ?_, ?_, ?_⟩
+  all_goals
+    refine ⟨?_, fun _ => ⟨by simp [MDir.toRec, MUps.toRec, MTab.toRec], by decide⟩⟩
+    intro s hs
+    simp only [MDir.toRec, MUps.toRec, MTab.toRec, List.mem_cons, List.not_mem_nil, or_false] at hs
+  · rcases hs with rfl | rfl | rfl | rfl <;>
+      exact cc _ (by decide) (by decide) (by decide) (by decide) (by decide) (by decide) (by decide) (by decide)
+  · rcases hs with rfl | rfl <;>
+      exact cc _ (by decide) (by decide) (by decide) (by decide) (by decide) (by decide) (by decide) (by decide)
+  · rcases hs with rfl | rfl <;>
+      exact cc _ (by decide) (by decide) (by decide) (by decide) (by decide) (by decide) (by decide) (by decide)
+
+/-! ## Stacks reached through a symbolic link
+
+`VersionFile.write` is the one place on the declaration path that resolves symbolic links (`os.path.realpath` of
+`trimDir` and of each absolute value; `isSubpath` compares the resolved paths).  `declareRecR real` / `trimKeyR real` are
+the model with `real` = `os.path.realpath` as a parameter (`realOf links` for a tree whose symbolic links are `links`); the
+correspondence runs it with the link of the EUPS_PATH entry, for arguments typed through the link and for arguments
+typed by their real paths. -/
+
+/-- Without symbolic links the link-aware model is the model of all the theorems above. -/
+theorem C16_links_none (ex : Path → Bool) (who now : Str) (vr : VRec) (p : Record.Prod) :
+    declareRecR id ex who now vr p = declareRec ex who now vr p :=
+  declareRecR_id ex who now vr p
+
+/-- **One spelling suffices**: the stack is reached through the symbolic link `l → t`.  For a value `l/a` and a
+directory `l/b` both spelled through the link, the test that `VersionFile.write` makes on the *resolved* paths
+(`t/a` below `t/b`, and what remains) is the test on the spellings — so everything proved about a stack at `l` holds
+for the stack behind the link, and the record does not depend on where the link points. -/
+theorem C16_link_spelling (l t a b : List Str) :
+    (realOf [(absP l, absP t)] (absP (l ++ a))).under (realOf [(absP l, absP t)] (absP (l ++ b)))
+      = (absP (l ++ a)).under (absP (l ++ b)) :=
+  realOf_under l t a b
+
+/-- Non-vacuity / what resolving does: `/sw/stack/Linux/p` with `/sw/stack → /disk3/stack` is `/disk3/stack/Linux/p`. -/
+example : realOf [(absP [[115, 119], [115]], absP [[100, 51], [115]])] (absP [[115, 119], [115], [76], [112]])
+    = absP [[100, 51], [115], [76], [112]] := by decide
+
 /-! ## End to end -/
 
 /-- **Relocation through the text of the record**: `Database.declare` into an empty version file with the stack at
